@@ -24,6 +24,12 @@ qs = [
     (L[L.a > 0].shuffle("a")[["a", "c"]] + 1).groupby("a").c.sum(),
     (L.fillna(0).a + (L * 2).c) * L.abs().a,
     L[(L.a > 1) | (L.c < 0)].b.sum() + L.c.sum(),
+    L[L.a.isin(["p", "q", "r", "s", "t", "p"])],
+    L.a.isin([3, 1, 2, 1]).sum(),
+    L.groupby("a").agg({"c": ["sum", "max"], "b": "mean"}),
+    L.merge(R, on="a", how="left", suffixes=("_l", "_r")).fillna({"e": 0, "b": 1}),
+    L.rename(columns={"a": "x", "c": "y"}).astype({"x": "float64", "y": "int32"}),
+    L.drop(columns=["b", "c"]).assign(z=1, w=2),
 ]
 for q in qs:
     o = q.optimize()
